@@ -566,3 +566,25 @@ Theorem pair_law_model l E O outV :
   | _, _ => False
   end.
 Proof. unfold tiles_to_sids. destruct (tiles_to_eids l E O outV); [apply multiset_eqb_refl|exact I]. Qed.
+
+(* the guard of the class: with every per-tile int64 computation exact, ConvertAltitudekeyToMinMaxZ as executed is key2z *)
+Theorem exact_tiles_meaning ts E O outV t : exact_tiles ts E O outV = true -> In t ts -> ext_check_zoom (th t) outV = true ->
+  go_result (key2z64m (tz t) (tv t) outV E O) = Some (key2z (tz t) (tv t) outV E O).
+Proof.
+  unfold exact_tiles. rewrite forallb_forall. intros H Ht Hz. specialize (H t Ht). rewrite Hz in H. cbn [negb orb] in H.
+  destruct (key2z64m (tz t) (tv t) outV E O) as [[r e]|] eqn:K; cbn in H; [|discriminate]. subst e.
+  cbn. f_equal. now apply key2z64m_exact.
+Qed.
+(* on the property's domain the class is empty *)
+Theorem exact_tiles_on_domain tiles ts E O outV : build tiles = Some (Ok ts) -> 0 <= E <= 35 -> - 2 ^ 50 <= O <= 2 ^ 50 ->
+  exact_tiles ts E O outV = true.
+Proof.
+  intros Hb HE HO. unfold exact_tiles. apply forallb_forall. intros t Ht.
+  assert (Hz : 0 <= tv t <= 35).
+  { revert ts Hb Ht. induction tiles as [|v r IH]; cbn [build]; intros ts Hb Ht; [injection Hb as <-; destruct Ht|].
+    unfold raw_tile in Hb. destruct (as_LZ v) as [[|h [|x [|y [|vz [|z [|]]]]]]|]; try discriminate.
+    destruct (new_tile h x y vz z) as [t0|] eqn:N; destruct (build r) as [[ts0|]|]; try discriminate.
+    injection Hb as <-. destruct Ht as [<-|Ht]; [apply new_tile_ok in N; lia|eapply IH; eauto]. }
+  destruct (ext_check_zoom (th t) outV) eqn:Z; [|reflexivity]. cbn [negb orb]. apply ext_check_zoom_spec in Z.
+  rewrite key2z64m_domain by lia. reflexivity.
+Qed.
